@@ -48,7 +48,13 @@ func runReplayDriver(r *Report, o *Obl, path string) bool {
 	ovb, _ := json.Marshal(ov)
 	ovPath := filepath.Join(tmp, "overlay.json")
 	os.WriteFile(ovPath, ovb, 0o644)
-	model, _ := json.Marshal(map[string]any{"obligation": o.Name, "model": o.Model})
+	small := map[string]string{}
+	for k, v := range o.Model {
+		if len(v) <= 1000 {
+			small[k] = v
+		}
+	}
+	model, _ := json.Marshal(map[string]any{"obligation": o.Name, "model": small})
 	ctx, cancel := context.WithTimeout(context.Background(), 120*time.Second)
 	defer cancel()
 	cmd := exec.CommandContext(ctx, "go", "test", "-overlay", ovPath, "-vet=off", "-count=1", "-timeout", "60s", "-run", "TestVerifReplay", ".")
